@@ -21,8 +21,10 @@ import (
 	"log/slog"
 	"math"
 	"math/big"
+	"sort"
 	"strconv"
 	"strings"
+	"time"
 
 	"oss.terrastruct.com/d2/d2compiler"
 	"oss.terrastruct.com/d2/d2graph"
@@ -36,7 +38,7 @@ import (
 )
 
 func init() {
-	register(&Prop{ID: "C22", Module: "V.C22.Check", Gen: c22Gen, Quick: 420, Thorough: 3000, Shard: 20})
+	register(&Prop{ID: "C22", Module: "V.C22.Check", Gen: c22Gen, Quick: 360, Thorough: 3000, Shard: 20})
 }
 
 // exact rational of a float64: (qz n) or (qd m e) = m / 2^e
@@ -139,6 +141,82 @@ func c22GridCase(grid *d2graph.Object, sizeBefore func(*d2graph.Object) (c22Size
 	return
 }
 
+// c22Timed runs f and gives up after 60 s (a hanging partition search must not take the whole run down).
+func c22Timed(f func()) (timedOut bool) {
+	done := make(chan struct{})
+	go func() {
+		defer close(done)
+		f()
+	}()
+	select {
+	case <-done:
+		return false
+	case <-time.After(60 * time.Second):
+		return true
+	}
+}
+
+// ---- d2grid.GenLayout (exported): rows from cut indices ----
+
+func c22GenLayoutCase(r *Rng) (cs Case) {
+	cs = Case{Class: "genlayout"}
+	n := r.Range(1, 30)
+	nc := r.Intn(7)
+	cuts := make([]int, nc)
+	for i := range cuts {
+		cuts[i] = r.Intn(n)
+	}
+	switch r.Intn(3) {
+	case 0: // as the search produces them: strictly increasing
+		sort.Ints(cuts)
+		var u []int
+		for i, c := range cuts {
+			if i == 0 || c != cuts[i-1] {
+				u = append(u, c)
+			}
+		}
+		cuts = u
+	case 1:
+		sort.Ints(cuts) // repeated cuts -> empty rows
+	}
+	objs := make([]*d2graph.Object, n)
+	idx := map[*d2graph.Object]int{}
+	for i := range objs {
+		objs[i] = &d2graph.Object{ID: fmt.Sprint(i)}
+		idx[objs[i]] = i
+	}
+	var rows [][]int
+	defer func() {
+		if e := recover(); e != nil {
+			cs.ImplFail = append(cs.ImplFail, fmt.Sprintf("panic: %v", e))
+		}
+		var cz, rz []string
+		for _, c := range cuts {
+			cz = append(cz, coqNat(c))
+		}
+		for _, row := range rows {
+			var xs []string
+			for _, i := range row {
+				xs = append(xs, coqNat(i))
+			}
+			rz = append(rz, coqList(xs))
+		}
+		cs.Coq = fmt.Sprintf("CGen %s %s %s", coqNat(n), coqList(cz), coqList(rz))
+		cs.Input = map[string]any{"objects": n, "cuts": cuts}
+		cs.Impl = map[string]any{"rows": rows}
+		cs.Nontrivial = len(cuts) > 0
+		cs.Key = cs.Coq
+	}()
+	for _, row := range d2grid.GenLayout(objs, cuts) {
+		var xs []int
+		for _, o := range row {
+			xs = append(xs, idx[o])
+		}
+		rows = append(rows, xs)
+	}
+	return
+}
+
 // ---- direct: d2grid.Layout on a compiled grid whose cells get sizes chosen by the harness ----
 
 type c22Config struct {
@@ -225,6 +303,7 @@ func c22Direct(r *Rng, cfg c22Config, n int, class string) (cs Case) {
 		fmt.Fprintf(&b, "c%d\n", i)
 	}
 	script := b.String()
+	cs.Input = map[string]any{"script": script}
 	defer func() {
 		if e := recover(); e != nil {
 			cs.ImplFail = append(cs.ImplFail, fmt.Sprintf("panic: %v", e))
@@ -283,8 +362,23 @@ func c22Direct(r *Rng, cfg c22Config, n int, class string) (cs Case) {
 		in = append(in, []float64{w, h})
 	}
 	g.Root.Box = &geo.Box{} // as LayoutNested does
-	if err := d2grid.Layout(c22Ctx(), g); err != nil {
-		cs.ImplFail = append(cs.ImplFail, "d2grid.Layout error: "+err.Error())
+	cs.Input = map[string]any{"script": script, "cell_sizes": in}
+	var lerr error
+	var lpanic any
+	if c22Timed(func() {
+		defer func() { lpanic = recover() }()
+		lerr = d2grid.Layout(c22Ctx(), g)
+	}) {
+		cs.ImplFail = []string{"d2grid.Layout did not return within 60 s"}
+		cs.Coq = "Case 0%nat 0%nat false None None None [] None"
+		cs.Input = map[string]any{"script": script, "cell_sizes": in}
+		return
+	}
+	if lpanic != nil {
+		panic(lpanic)
+	}
+	if lerr != nil {
+		cs.ImplFail = append(cs.ImplFail, "d2grid.Layout error: "+lerr.Error())
 	}
 	coq, impl, _, fail := c22GridCase(g.Root, func(o *d2graph.Object) (c22Size, bool) { s, ok := sizes[o]; return s, ok })
 	if fail != "" {
@@ -470,7 +564,7 @@ func c22Pipeline(script, class string) (out []Case) {
 	before := map[*d2graph.Object]c22Size{}
 	captured := map[*d2graph.Object]bool{}
 	var fail string
-	func() {
+	if c22Timed(func() {
 		defer func() {
 			if e := recover(); e != nil {
 				fail = fmt.Sprintf("panic: %v", e)
@@ -513,7 +607,9 @@ func c22Pipeline(script, class string) (out []Case) {
 		if err = d2layouts.LayoutNested(c22Ctx(), g, d2layouts.NestedGraphInfo(g.Root), core, d2layouts.DefaultRouter); err != nil {
 			fail = "LayoutNested: " + err.Error()
 		}
-	}()
+	}) {
+		return failCase("layout did not return within 60 s")
+	}
 	if fail != "" {
 		if strings.HasPrefix(fail, "compile error") {
 			return nil // not an input of the layout
@@ -577,6 +673,9 @@ func c22Gen(r *Rng, tier string, n int) []Case {
 		for _, k := range []int{1, 2, 7, 30} {
 			out = append(out, c22Direct(r.Fork(), cfg, k, "direct-corpus"))
 		}
+	}
+	for i := 0; i < n/12; i++ {
+		out = append(out, c22GenLayoutCase(r.Fork()))
 	}
 	nDirect := (n - len(out)) / 2
 	for i := 0; i < nDirect; i++ {
